@@ -38,6 +38,7 @@ type lifeCase struct {
 	Seed      int64      `json:"seed"`
 	Idx       int        `json:"idx"`
 	SdOnServe bool       `json:"sdOnServe"`
+	TCP       bool       `json:"tcp"`
 }
 
 type lifeWorld struct {
@@ -49,6 +50,7 @@ type lifeWorld struct {
 	pend   map[string]chan struct{}
 	closed bool
 	done   bool
+	addrs  map[string]int // real TCP mode: client address -> client id
 }
 
 func (lw *lifeWorld) log(e Ev) {
@@ -64,6 +66,15 @@ func (lw *lifeWorld) log(e Ev) {
 		lw.done = true
 	}
 	lw.mu.Unlock()
+}
+
+func (lw *lifeWorld) idOfAddr(a net.Addr) int {
+	if pa, ok := a.(*pipeAddr); ok {
+		return pa.id
+	}
+	lw.mu.Lock()
+	defer lw.mu.Unlock()
+	return lw.addrs[a.String()]
 }
 
 func procOf(point string, id int) string {
@@ -85,6 +96,9 @@ func (lw *lifeWorld) hook(point string, conn net.Conn, n int64) {
 	lw.mu.Lock()
 	if conn != nil {
 		id = lw.ids[conn]
+		if id == 0 && lw.addrs != nil {
+			id = lw.addrs[conn.RemoteAddr().String()]
+		}
 	}
 	gated := lw.gated && !lw.closed
 	lw.mu.Unlock()
@@ -200,6 +214,15 @@ func runLife(w *writer, c *lifeCase) {
 	rng := rand.New(rand.NewSource(c.Seed))
 	var rngMu sync.Mutex
 	ln := newPipeListener()
+	var tcpLn net.Listener
+	if c.TCP {
+		var err error
+		tcpLn, err = net.Listen("tcp", "127.0.0.1:0")
+		if err != nil {
+			panic("verif: cannot listen on loopback: " + err.Error())
+		}
+		lw.addrs = map[string]int{}
+	}
 	addrOf := func(conn net.Conn) int {
 		lw.mu.Lock()
 		defer lw.mu.Unlock()
@@ -223,7 +246,7 @@ func runLife(w *writer, c *lifeCase) {
 	// the callbacks identify the connection by its remote address: the pipe listener gives each client its own
 	if c.OnAccept {
 		srv.OnAcceptConnFunc = func(ctx context.Context, remote net.Addr, count uint64) error {
-			id := remote.(*pipeAddr).id
+			id := lw.idOfAddr(remote)
 			dec := "accept"
 			if rejects[id] {
 				dec = "reject"
@@ -237,7 +260,7 @@ func runLife(w *writer, c *lifeCase) {
 	}
 	if c.OnClose {
 		srv.OnCloseConnFunc = func(ctx context.Context, remote net.Addr, isShutdown bool) {
-			lw.log(Ev{"ev": "cb.close", "conn": remote.(*pipeAddr).id, "isShutdown": isShutdown})
+			lw.log(Ev{"ev": "cb.close", "conn": lw.idOfAddr(remote), "isShutdown": isShutdown})
 		}
 	}
 	curWorld.Store(lw)
@@ -278,7 +301,12 @@ func runLife(w *writer, c *lifeCase) {
 	}
 	earlyShutdown = startShutdown
 	go func() {
-		err := srv.Serve(ctx, ln, h)
+		var err error
+		if c.TCP {
+			err = srv.Serve(ctx, tcpLn, h)
+		} else {
+			err = srv.Serve(ctx, ln, h)
+		}
 		kind := "other"
 		switch {
 		case err == nil:
@@ -293,6 +321,26 @@ func runLife(w *writer, c *lifeCase) {
 	clients := map[int]*lifeClient{}
 	var cmu sync.Mutex
 	dial := func(id int) {
+		if c.TCP {
+			lw.log(Ev{"ev": "op", "a": "dial", "p": id})
+			d := net.Dialer{Timeout: 300 * time.Millisecond}
+			lw.mu.Lock() // the address must be known before the server can report the connection
+			conn, err := d.Dial("tcp", tcpLn.Addr().String())
+			if err == nil {
+				lw.addrs[conn.LocalAddr().String()] = id
+			}
+			lw.mu.Unlock()
+			if err != nil {
+				lw.log(Ev{"ev": "dial.refused", "conn": id})
+				return
+			}
+			cl := &lifeClient{id: id, conn: conn}
+			cmu.Lock()
+			clients[id] = cl
+			cmu.Unlock()
+			go cl.reader(lw)
+			return
+		}
 		a, b := net.Pipe()
 		sc := &pipeConn{Conn: b, remote: &pipeAddr{id: id}}
 		lw.mu.Lock()
@@ -428,6 +476,9 @@ func runLife(w *writer, c *lifeCase) {
 		lw.log(Ev{"ev": "op", "a": "teardown", "p": 0})
 		cancel()
 		ln.Close()
+		if tcpLn != nil {
+			tcpLn.Close()
+		}
 	}
 	select {
 	case <-served:
@@ -437,6 +488,9 @@ func runLife(w *writer, c *lifeCase) {
 	if !servedOK {
 		// make sure the accept loop ends before the next scenario
 		ln.Close()
+		if tcpLn != nil {
+			tcpLn.Close()
+		}
 		select {
 		case <-served:
 		case <-time.After(time.Second):
@@ -445,10 +499,17 @@ func runLife(w *writer, c *lifeCase) {
 	// after a shutdown / cancel: can a client still connect?
 	dialAfter := false
 	if sdStartedFlag.Load() || cancelled {
-		select {
-		case <-ln.closed:
-		default:
-			dialAfter = true // the listener still takes connections
+		if c.TCP {
+			if x, err := net.DialTimeout("tcp", tcpLn.Addr().String(), 100*time.Millisecond); err == nil {
+				dialAfter = true // the port still accepts connections
+				x.Close()
+			}
+		} else {
+			select {
+			case <-ln.closed:
+			default:
+				dialAfter = true // the listener still takes connections
+			}
 		}
 	}
 	time.Sleep(3 * time.Millisecond)
@@ -538,6 +599,13 @@ func dispatchHook(point string, conn net.Conn, n int64) {
 	if conn != nil {
 		if v, ok := connWorld.Load(conn); ok {
 			v.(*lifeWorld).hook(point, conn, n)
+		} else if lw := curWorld.Load(); lw != nil && lw.addrs != nil {
+			lw.mu.Lock()
+			_, known := lw.addrs[conn.RemoteAddr().String()]
+			lw.mu.Unlock()
+			if known {
+				lw.hook(point, conn, n)
+			}
 		}
 		return
 	}
